@@ -947,7 +947,10 @@ def generate(unit, template_path, canary=False, extra_fns=()):
                 # R10: proof text placed before the closing brace of the body (only sound for bodies whose last
                 # statement ends with `;` - i.e. unit-valued blocks such as match arms)
                 g.rewrites.append({"rule": "R10", "where": where, "before": "}", "after": spec["epilogue"].strip() + " }"})
-                body = body[:-1] + " " + spec["epilogue"].strip() + " }"
+                inner = body[:-1].rstrip()
+                if inner and inner[-1] not in ";{}":
+                    inner += ";"        # unit-valued tail expression of the arm block becomes a statement
+                body = inner + " " + spec["epilogue"].strip() + " }"
             if canary:
                 # vacuity canary: `assert(false)` right after the prologue must FAIL, i.e. the function's
                 # requires together with the axioms in scope must be satisfiable
